@@ -216,6 +216,14 @@ func mainCheck(args []string) int {
 			cov.NAssume = len(x.assumes)
 		}
 		x.obls = append(x.obls, cov)
+		for lf := range x.lemmaFiles {
+			data, err := os.ReadFile(filepath.Join(*verif, "contracts", "lemmas", lf))
+			lo := &Obl{Name: shortKey(x.top.Key) + "#LEMMA[" + sanitize(lf) + "]", Kind: "LEMMA", Desc: "arithmetic lemma used as an axiom is itself proved (" + lf + ")", Guard: x.tc.True(), Goal: x.tc.False(), NAssume: 0, NFacts: 0}
+			if err == nil {
+				lo.RawQuery = string(data)
+			}
+			x.obls = append(x.obls, lo)
+		}
 		for _, o := range x.obls {
 			jobs = append(jobs, solveJob{x, o, smtDir})
 		}
